@@ -351,6 +351,10 @@ func (w *World) rulesParsePkg(p *Pkg, out *[]Obligation) {
 	w.rulesDenyList(p, add)
 	// ---- sentinels
 	w.rulesSentinels(p, add)
+	// ---- cursor automaton (v2, v4)
+	if ov.Order == "fixed" {
+		w.rulesAutomaton(p, m, add)
+	}
 	// ---- v2 split
 	if k == "20" {
 		w.rulesSplit(p, m, add)
